@@ -29,7 +29,7 @@ POLICIES = {
 
 
 def keys_for(tier):
-    ks = [("a",), ("b",), ("d", "c")]
+    ks = [("d-x", "y"), ("d.b",), ("d", "c")]   # '-' and '.' sort before '/': string order != component order
     if tier == "thorough":
         ks.append(("d", "e"))
     return ks
@@ -217,7 +217,7 @@ def _public_store(w, kind, keys, vals):
     return odb, infos
 
 
-PKEYS = [("a",), ("d", "c")]
+PKEYS = [("d-x", "y"), ("d", "c")]
 
 
 def public_one(odb, infos, a, o, t, pol):
